@@ -228,3 +228,23 @@ Definition preport (cs : list pcase) : list (list Z) :=
   [pids pm_fp cs; pids pm_djb cs; pids pm_doc cs; pids pv_perm cs; pids pv_doc cs; pids pk_unsan cs;
    pids pm_hdr cs; pids pk_hdr cs; pids pm_loki cs; pids pv_proto_new cs; pids pv_hdr_new cs; pids pc_unsan_same cs;
    pids pv_unsanitized cs].
+
+(* ------------------------------------------------------------------ correspondence cases (pairs of label sets under both fingerprint types) *)
+Record jcase := {
+  jc_id : Z;
+  jc_a : list label; jc_b : list label;      (* two label sets as they reach fingerprintLabels *)
+  jc_ch : list (string * Z);                 (* city.CH64 of their names and values (oracle table) *)
+  jc_city_a : Z; jc_city_b : Z;              (* observed under FingerPrintType = CityHash *)
+  jc_djb_a : Z; jc_djb_b : Z                 (* observed under FingerPrintType = Bernstein *)
+}.
+Definition jm (c : jcase) : bool :=
+  negb ((fingerprint_tbl (jc_ch c) (jc_a c) =? jc_city_a c) && (fingerprint_tbl (jc_ch c) (jc_b c) =? jc_city_b c) &&
+        (fingerprint_djb_tbl (jc_ch c) (jc_a c) =? jc_djb_a c) && (fingerprint_djb_tbl (jc_ch c) (jc_b c) =? jc_djb_b c)).
+Definition jdifferent (c : jcase) : bool := negb (same_labels (jc_a c) (jc_b c)).
+(* spec: different label sets get different fingerprints *)
+Definition jv_city (c : jcase) : bool := jdifferent c && (jc_city_a c =? jc_city_b c).
+Definition jv_djb (c : jcase) : bool := jdifferent c && (jc_djb_a c =? jc_djb_b c).
+(* a Bernstein fingerprint has 32 bits *)
+Definition jv_range (c : jcase) : bool := negb ((jc_djb_a c <? 4294967296) && (jc_djb_b c <? 4294967296)).
+Definition jreport (cs : list jcase) : list (list Z) :=
+  let ids f := map jc_id (filter f cs) in [ids jm; ids jv_city; ids jv_djb; ids jv_range].
